@@ -25,3 +25,19 @@ by move=> p q Hpq; apply: Hb; apply/ltP.
 Qed.
 Print Assumptions C10_active_band_suffices.
 
+
+(* the factor the whitening uses exists and is what the code computes in place: L D L' by successive Schur complements
+   reconstructs every symmetric matrix without a vanishing pivot, L is unit lower triangular, D diagonal, and the band of
+   the matrix is the band of its factor (so the packed band of CovMat loses nothing) -- CholProofs.v *)
+From Gama Require Import CholProofs.
+Theorem C10_ldl_reconstructs (F : fieldType) (n : nat) (A : 'M[F]_n.+1) :
+  A^T = A -> regular A -> let LD := ldl A in LD.1 *m LD.2 *m LD.1^T = A.
+Proof. exact: ldl_correct. Qed.
+Print Assumptions C10_ldl_reconstructs.
+Theorem C10_ldl_factor_shape (F : fieldType) (n : nat) (A : 'M[F]_n.+1) (i j : 'I_n.+1) :
+  ((i <= j)%N -> (ldl A).1 i j = (i == j)%:R) /\ (i != j -> (ldl A).2 i j = 0).
+Proof. by split; [exact: ldl_L_unit_lower | exact: ldl_D_diagonal]. Qed.
+Print Assumptions C10_ldl_factor_shape.
+Theorem C10_ldl_keeps_the_band (F : fieldType) (n w : nat) (A : 'M[F]_n.+1) : banded w A -> banded w (ldl A).1.
+Proof. exact: ldl_L_banded. Qed.
+Print Assumptions C10_ldl_keeps_the_band.
